@@ -6,6 +6,14 @@ HERE = os.path.dirname(os.path.abspath(__file__))
 out = {}
 for d in sorted(glob.glob(os.path.join(os.path.dirname(HERE), "seeded", "S*"))):
     m = json.load(open(os.path.join(d, "meta.json")))
+    if m.get("tier") == "thorough":
+        # caught in the thorough tier only: run just the thorough-tier family that catches it (selftest/thorough_family.py)
+        r = subprocess.run([os.path.join(HERE, "thorough_family.py"), os.path.join(d, "patch.diff"), m["thorough_family"], ",".join(m["caught_by"])],
+                           capture_output=True, text=True)
+        status = "killed" if r.returncode == 1 else "SURVIVED"
+        out[m["id"]] = {"property": m["property"], "checks": m["caught_by"], "status": status, "detail": r.stdout[-200:], "tier": "thorough"}
+        print(m["id"], status, "(thorough-tier family %s)" % m["thorough_family"], flush=True)
+        continue
     r = subprocess.run([os.path.join(HERE, "run_mutants.py"), os.path.join(d, "patch.diff"), ",".join(m["caught_by"])],
                        capture_output=True, text=True)
     line = [l for l in r.stdout.splitlines() if l.split() and l.split()[0] in ("killed", "partly-killed", "SURVIVED", "invalid", "caught-by-suite")]
